@@ -67,7 +67,13 @@ Definition C01_statement : Prop :=
       | _, _ => False
       end.
 
-(* Known_C01 is inhabited by the recorded findings and not trivially true *)
+(* Known_C01 (Model/KnownC01.v) = class 1, the file scheme is involved, + the EXACT exclusions of the proved
+   class theorems computed on the raw text: class 2 a ".." meets a drive-letter-shaped last segment of the
+   path the Standard builds, class 3 non-special authority with a port <= 65535 directly followed by '\',
+   class 4 non-special authority exactly ":@".  It is inhabited by the recorded findings and not trivially
+   true; C01_known_classes_refuted (below) shows that each class contains a real divergence of the model
+   from the Standard, C01_known_narrowed that the former broad classes (a drive-letter-shaped piece / a
+   backslash in non-special input / ":@" anywhere: known_c01_broad) are left. *)
 Example C01_known_classes :
   known_c01 None [102;105;108;101;58;47;47;47;67;124] = 1                      (* file:///C| *)
   /\ known_c01 None [110;58;47;67;124;47;46;46] = 2                            (* n:/C|/.. *)
@@ -1139,6 +1145,7 @@ Print Assumptions C01_base_ignored_model.
    non-special scheme, or with a special scheme other than the scheme of the base, outside Known_C01 is in
    in_proved_class3 *)
 Theorem C01_class3_complete_own_scheme : forall sb b input sch R,
+  b_scheme b = su_scheme sb ->                    (* the two records carry the same scheme (part of `related`) *)
   spec_scheme (spec_clean input) = Some (sch, R) ->
   is_special_scheme sch = false \/ list_eqb (su_scheme sb) sch = false ->
   known_c01 (Some b) input = 0 -> in_proved_class3 (Some sb) input = true.
@@ -1526,3 +1533,106 @@ Check C01_statement_instance : forall dbg idna, IdnaOK idna -> forall input base
   | _, _ => False
   end.
 Print Assumptions C01_statement_instance.
+
+(* ====================================================================================== *)
+(* Known_C01 is exact: classes 2-4 are the exclusions of the class theorems, read off the raw text *)
+(* ====================================================================================== *)
+From RU Require Import Proofs.C01_KnownExact.
+
+(* the raw path simulation of Known_C01 (one drive-letter flag per segment, W, raw buffer B) implies the test
+   of the class theorems on the Standard's own state (segment list P, percent-encoded buffer): the
+   dot-segment tests do not see the percent-encoding of the path set, and a percent-encoded segment that is
+   drive-letter-shaped was so before encoding; non-special ('/' separates) and special ('/' and '\') *)
+Theorem C01_known_exact_path : forall t P W B, wrel P W ->
+  (k_path_ok false t W B = true -> spath_ok t P (upe in_path_set B) = true)
+  /\ (k_path_ok true t W B = true -> spath_ok_s t P (upe in_path_set B) = true).
+Proof. intros t P W B H. split; [exact (k_path_ok_spath t P W B H) | exact (k_path_ok_spath_s t P W B H)]. Qed.
+Check C01_known_exact_path : forall t P W B,
+  Forall2 (fun s w => starts_with_wdl (s ++ [47]) = true -> w = true) P W ->
+  (k_path_ok false t W B = true -> spath_ok t P (upe in_path_set B) = true)
+  /\ (k_path_ok true t W B = true -> spath_ok_s t P (upe in_path_set B) = true).
+Print Assumptions C01_known_exact_path.
+
+(* the text after "//" of a non-special URL / after "sch:" of a special URL: outside classes 2-4 = in the
+   recogniser of the class theorem (the cuts Known_C01 makes are the cuts of the Standard's states) *)
+Theorem C01_known_exact_authority : forall T, k_auth T = 0 -> auth_class_ok T = true.
+Proof. exact k_auth_class_ok. Qed.
+Check C01_known_exact_authority : forall T, k_auth T = 0 -> auth_class_ok T = true.
+Print Assumptions C01_known_exact_authority.
+
+Theorem C01_known_exact_special : forall R, k_special R = 0 -> sp_class_ok (drop_sl R) = true.
+Proof. exact k_special_class_ok. Qed.
+Check C01_known_exact_special : forall R, k_special R = 0 -> sp_class_ok (drop_sl R) = true.
+Print Assumptions C01_known_exact_special.
+
+(* every class of Known_C01 contains a genuine divergence of the model from the Standard (the match of
+   C01_statement is False): file:///C| (file:///C| vs file:///C:), n:/C|/.. (n:/C|/ vs n:/),
+   n://x.y:8\ (accepted vs failure), blob://:@/ (accepted vs failure) - findings F-C01-11, 9, 8, 12 *)
+Theorem C01_known_classes_refuted :
+  (known_c01 None wit_k1 = 1 /\ sides_differ None None wit_k1)
+  /\ (known_c01 None wit_k2 = 2 /\ sides_differ None None wit_k2)
+  /\ (known_c01 None wit_k3 = 3 /\ sides_differ None None wit_k3)
+  /\ (known_c01 None wit_k4 = 4 /\ sides_differ None None wit_k4).
+Proof. exact known_classes_refuted. Qed.
+Check C01_known_classes_refuted :
+  (known_c01 None wit_k1 = 1 /\ sides_differ None None wit_k1)
+  /\ (known_c01 None wit_k2 = 2 /\ sides_differ None None wit_k2)
+  /\ (known_c01 None wit_k3 = 3 /\ sides_differ None None wit_k3)
+  /\ (known_c01 None wit_k4 = 4 /\ sides_differ None None wit_k4).
+(* sides_differ base sbase input := the match of C01_statement (statement_shape) is False for the host model
+   over the identity oracle *)
+Check (eq_refl : sides_differ = fun base sbase input =>
+  ~ statement_shape true spec_host_serializer
+      (parse_url true (host_parse id_idna) host_parse_opaque host_display None base input)
+      (spec_basic_url_parse (spec_host_parser id_idna) input sbase)).
+Check (eq_refl : wit_k1 = [102;105;108;101;58;47;47;47;67;124]).
+Check (eq_refl : wit_k2 = [110;58;47;67;124;47;46;46]).
+Check (eq_refl : wit_k3 = [110;58;47;47;120;46;121;58;56;92]).
+Check (eq_refl : wit_k4 = [98;108;111;98;58;47;47;58;64;47]).
+Print Assumptions C01_known_classes_refuted.
+
+(* class 2 through the base: "../y" against the parse result of n:/C:/x (itself outside Known_C01):
+   n:/C:/y vs n:/y *)
+Theorem C01_known_class2_base_refuted :
+  match parse_url true (host_parse id_idna) host_parse_opaque host_display None None wit_k2_base,
+        spec_basic_url_parse (spec_host_parser id_idna) wit_k2_base None with
+  | POk b, BDone sb => known_c01 (Some b) wit_k2_ref = 2 /\ known_c01 None wit_k2_base = 0
+                       /\ sides_differ (Some b) (Some sb) wit_k2_ref
+  | _, _ => False
+  end.
+Proof. exact known_class2_base_refuted. Qed.
+Print Assumptions C01_known_class2_base_refuted.
+
+(* the exact classes leave the former broad ones (known_c01_broad): http://u:@h/, n://u:@h/:@,
+   n://h/C:/x/.., n://h:8/a\b?\ are now covered by C01_statement_all *)
+Theorem C01_known_narrowed :
+  (known_c01_broad None nar_1 = 4 /\ known_c01 None nar_1 = 0)
+  /\ (known_c01_broad None nar_2 = 4 /\ known_c01 None nar_2 = 0)
+  /\ (known_c01_broad None nar_3 = 2 /\ known_c01 None nar_3 = 0)
+  /\ (known_c01_broad None nar_4 = 3 /\ known_c01 None nar_4 = 0).
+Proof. exact known_narrowed. Qed.
+Print Assumptions C01_known_narrowed.
+
+(* class 1 of Known_C01 (the file scheme) does not contain the scheme-less references that are empty or
+   start with '?' / '#': they are resolved by the fragment-only / query-only / empty-reference classes, which
+   hold for every kind of base, so C01_statement_all covers them against file bases too *)
+Theorem C01_class3_complete_bare_ref : forall sb input,
+  spec_scheme (spec_clean input) = None -> k_bare_ref (spec_clean input) = true ->
+  in_proved_class3 (Some sb) input = true.
+Proof. exact bare_ref_covers. Qed.
+Check C01_class3_complete_bare_ref : forall sb input,
+  spec_scheme (spec_clean input) = None ->
+  match spec_clean input with [] => true | c :: _ => (c =? 63) || (c =? 35) end = true ->
+  in_proved_class3 (Some sb) input = true.
+Print Assumptions C01_class3_complete_bare_ref.
+
+(* against the parse result of file://h/tmp/x: "#f", "?q", "", " <TAB>" are outside Known_C01, "x" and "/x" are
+   in class 1 *)
+Theorem C01_known_file_bare :
+  match parse_url true (host_parse id_idna) host_parse_opaque host_display None None file_base_text with
+  | POk b => known_c01 (Some b) [35; 102] = 0 /\ known_c01 (Some b) [63; 113] = 0 /\ known_c01 (Some b) [] = 0
+             /\ known_c01 (Some b) [32; 9] = 0 /\ known_c01 (Some b) [120] = 1 /\ known_c01 (Some b) [47; 120] = 1
+  | _ => False
+  end.
+Proof. exact known_file_bare. Qed.
+Print Assumptions C01_known_file_bare.
